@@ -137,6 +137,11 @@ func runC20(t *testing.T, tape *sim.Tape, tier string) *Outcome {
 		// (the connection loop is driven without Start(), which is what registers the password's authenticator)
 		c.Srv.AddAuthenticator(auth.NewClearTextPasswordAuthenticatorWith("", "pw"))
 	}
+	if tape.Draw(16, "nohandler") == 15 {
+		// the application has not set its command handler (yet): every user command is refused, spans balance all the same
+		c.Srv.SetCommandHandler(nil)
+		o.stat("runs_without_a_user_command_handler", 1)
+	}
 	tr := &wl.RecTracer{}
 	mon := &spanMonitor{tr: tr, o: o, ctx: func() string {
 		ri := c.serving()
